@@ -411,6 +411,80 @@ def param_kinds(ctx):
         ctx.hist('param-kinds', 'vector/ndarray/scalar x bilinear/linear/functional')
 
 
+def wrapper_corr(ctx, gen_ok):
+    """the regenerated form-copying wrappers and the asm dispatch against the real ones on generated attribute records"""
+    import functools
+    from skfem.assembly import BilinearForm, LinearForm, Functional, TrilinearForm, asm
+    rng = ctx.rng
+    DT = [np.float64, np.complex128]
+    classes = [BilinearForm, LinearForm, Functional]
+    cases = []
+
+    def code(F, orig):
+        f = F.form
+        fc = 0 if f is orig else (1 if (isinstance(f, functools.partial) and f.func is orig) or (callable(f) and f is not orig) else 9)
+        tag = F.params.get('tag', 99) if isinstance(F.params, dict) else 98
+        return f'(Some {cnat(fc)}, {cnat(DT.index(F.dtype) if F.dtype in DT else 7)}, {cnat(F.nthreads)}, {cnat(tag)})'
+    for c in range(ctx.n(30, 120)):
+        cls = classes[c % 3]
+        d, n, tg = rng.randrange(2), rng.randrange(4), rng.randrange(6)
+        kind = ['partial', 'block', 'decorate', 'init', 'init_from'][c % 5]
+
+        def f(u, v=None, w=None, x=None, alpha=1.0):
+            return u
+        info = {'class': cls.__name__, 'wrapper': kind, 'dtype': DT[d].__name__, 'nthreads': n, 'tag': tg}
+        try:
+            if kind == 'partial':
+                out = code(cls(f, dtype=DT[d], nthreads=n, tag=tg).partial(alpha=2.0), f)
+            elif kind == 'block':
+                out = code(cls(f, dtype=DT[d], nthreads=n, tag=tg).block(0, 0), f)
+            elif kind == 'decorate':
+                out = code(cls(dtype=DT[d], nthreads=n, tag=tg)(f), f)
+            elif kind == 'init':
+                out = code(cls(f, dtype=DT[d], nthreads=n, tag=tg), f)
+            else:
+                out = code(cls(cls(f, dtype=DT[1 - d], nthreads=n + 1, tag=tg + 1), dtype=DT[d], nthreads=n, tag=tg), f)
+        except Exception as e:  # noqa
+            ctx.fail(f'api:form-copy:{kind}:exception', f'{cls.__name__}.{kind}: unexpected {type(e).__name__}: {e}', info)
+            continue
+        cases.append((f'(W{kind} {cnat(d)} {cnat(n)} {cnat(tg)})', f'(OFr {out})', ('wrap', True, info)))
+        ctx.hist('wrapper correspondence', kind)
+    # asm dispatch by argument count, observed through the type of the result
+    import skfem
+    b = skfem.Basis(skfem.MeshTri(), skfem.ElementTriP1())
+    for nargs, fn in ((1, lambda w: w['x'][0]), (2, lambda v, w: v), (3, lambda u, v, w: u * v), (4, lambda u, v, z, w: u * v * z)):
+        r = asm(fn, b)
+        cl = ('WFunctional' if np.ndim(r) == 0 else 'WLinearForm' if isinstance(r, np.ndarray) else 'WBilinearForm' if hasattr(r, 'tocsr') and not hasattr(r, 'local_shape')
+              else 'WTrilinearForm' if getattr(r, 'shape', None) is not None and len(r.shape) == 3 else 'WNone')
+        cases.append((f'(Wasm {cnat(nargs)})', f'(OCls {cl})', ('asm', True, {'nargs': nargs})))
+    if not gen_ok:
+        return
+    defs = '''
+Require Import Model.C01_FormWrap.
+Inductive win := Wpartial (d n t : nat) | Wblock (d n t : nat) | Wdecorate (d n t : nat) | Winit (d n t : nat) | Winit_from (d n t : nat) | Wasm (k : nat).
+Inductive wout := OFr (r : option nat * nat * nat * nat) | OCls (c : formclass).
+Definition fr_out (r : formrec nat nat nat) := (fr_form r, fr_dtype r, fr_nthreads r, fr_params r).
+Definition runw (c : win) : wout :=
+  match c with
+  | Wpartial d n t => OFr (fr_out (gen_form_partial 0 99 S (mkFr (Some 0) d n t)))
+  | Wblock d n t => OFr (fr_out (gen_form_copy_block 0 99 S (mkFr (Some 0) d n t)))
+  | Wdecorate d n t => OFr (fr_out (gen_form_decorate 0 99 (mkFr None d n t) 0))
+  | Winit d n t => OFr (fr_out (gen_form_init 0 99 0 d n t))
+  | Winit_from d n t => OFr (fr_out (gen_form_init_from 0 99 (mkFr (Some 0) (1 - d) (S n) (S t)) d n t))
+  | Wasm k => OCls (gen_asm_wrapper k)
+  end.
+Definition cls_eqb (a b : formclass) : bool :=
+  match a, b with WFunctional, WFunctional | WLinearForm, WLinearForm | WBilinearForm, WBilinearForm | WTrilinearForm, WTrilinearForm | WNone, WNone => true | _, _ => false end.
+Definition wout_eqb (a b : wout) : bool :=
+  match a, b with
+  | OFr (f1, d1, n1, t1), OFr (f2, d2, n2, t2) => option_eqb Nat.eqb f1 f2 && Nat.eqb d1 d2 && Nat.eqb n1 n2 && Nat.eqb t1 t2
+  | OCls x, OCls y => cls_eqb x y
+  | _, _ => false
+  end.
+'''
+    ctx.corr('form_wrappers', 'From Coq Require Import List Arith Bool.\nRequire Import Gen.C01Gen.', 'runw', 'wout_eqb', cases, per_file=400, defs=defs)
+
+
 # ------------------------------------------------------------------------------------------ the check
 
 def run(ctx):
@@ -443,6 +517,7 @@ def run(ctx):
     ctx.prove()
     correspond(ctx, gen_ok)
     param_kinds(ctx)
+    wrapper_corr(ctx, gen_ok)
     from .. import c01_oracle, c01_api
     c01_oracle.run(ctx)
     c01_api.run(ctx)
